@@ -484,7 +484,7 @@ func parent(f gallina.Flags) {
 
 	nWork, snapRate, nHookKill, nSigKill, phases := 2, 90, 2, 1, 6
 	if f.Tier == "thorough" {
-		nWork, snapRate, nHookKill, nSigKill, phases = 10, 1000, 8, 6, 7
+		nWork, snapRate, nHookKill, nSigKill, phases = 8, 1000, 6, 4, 7
 	}
 	nWork *= f.Scale
 
